@@ -215,7 +215,7 @@ func init() {
 						}
 					})
 					ex.Release()
-					vsched.Quiet(func() { nb.StopForce() })
+					dropNode(nb)
 					return fmt.Sprint(got)
 				})
 				runtime.ReadMemStats(&ms)
